@@ -16,7 +16,7 @@
 
 extern uint32_t _cbor_unicode_decode(uint32_t* state, uint32_t* codep, uint32_t byte) __attribute__((weak));
 
-enum { K_PAIRS = VC_USER, K_PTRANS, K_SETHANDLE, K_BUILD, K_LOAD, K_VALID, K_INVALID, K_FAULTS, K_LONG, K_SWEEP };
+enum { K_PAIRS = VC_USER, K_PTRANS, K_SETHANDLE, K_BUILD, K_LOAD, K_VALID, K_INVALID, K_FAULTS, K_LONG, K_SWEEP, K_COPY, K_CHUNK };
 
 /* ---- incremental reference validator (RFC 3629 section 4 ranges) */
 typedef struct { uint8_t need, lo, hi; bool rej; } rst;
@@ -96,6 +96,7 @@ static void product_search(void) {
 
 static cbor_item_t* reuse_item;
 static unsigned char* reuse_handle;
+static bool bulk4; /* inside the thorough tier's sweep of all 4-byte sequences: paths (4) and (5) are skipped there */
 
 /* one byte sequence through the three API paths */
 static void judge_text(const uint8_t* s, size_t n, bool all_paths, bool distinct) {
@@ -147,8 +148,39 @@ static void judge_text(const uint8_t* s, size_t n, bool all_paths, bool distinct
     else {
       if (cbor_string_codepoint_count(it) != want) vf_fail(NULL, "cbor_load: codepoint count %zu, expected %zu", cbor_string_codepoint_count(it), want);
       if (cbor_string_length(it) != n || (n && memcmp(cbor_string_handle(it), s, n))) vf_fail(NULL, "cbor_load changed length or content of the text");
+      /* (4) the library's own duplicate of that string is again a definite text string holding these bytes */
+      if (n <= 3 || !bulk4) {
+        cbor_item_t* c = cbor_copy(it);
+        vf_cnt(K_COPY, 1);
+        if (!c) vf_fail(NULL, "cbor_copy of a decoded text string failed");
+        else {
+          if (cbor_string_codepoint_count(c) != want) vf_fail(NULL, "cbor_copy of the decoded string: codepoint count %zu, expected %zu", cbor_string_codepoint_count(c), want);
+          if (cbor_string_length(c) != n || (n && memcmp(cbor_string_handle(c), s, n))) vf_fail(NULL, "cbor_copy changed length or content of the text");
+          cbor_decref(&c);
+        }
+      }
     }
     cbor_decref(&it);
+  }
+  /* (5) the same bytes decoded as a chunk of an indefinite text string: every chunk is a definite text string of its own */
+  if (n <= 3 || !bulk4) {
+    uint8_t enc2[11 + 4096];
+    enc2[0] = 0x7f;
+    memcpy(enc2 + 1, enc, hl + n);
+    enc2[1 + hl + n] = 0xff;
+    in = vf_guard_put(enc2, hl + n + 2);
+    it = cbor_load(in, hl + n + 2, &res);
+    vf_cnt(K_CHUNK, 1);
+    if (!it) vf_fail(NULL, "cbor_load rejected a chunked text string because of its content (code %d at %zu)", res.error.code, res.error.position);
+    else {
+      if (!cbor_isa_string(it) || !cbor_string_is_indefinite(it) || cbor_string_chunk_count(it) != 1) vf_fail(NULL, "decoded item is not a chunked text string of one chunk");
+      else {
+        cbor_item_t* ch = cbor_string_chunks_handle(it)[0];
+        if (cbor_string_codepoint_count(ch) != want) vf_fail(NULL, "chunk decoded by cbor_load: codepoint count %zu, expected %zu", cbor_string_codepoint_count(ch), want);
+        if (cbor_string_length(ch) != n || (n && memcmp(cbor_string_handle(ch), s, n))) vf_fail(NULL, "cbor_load changed length or content of a text chunk");
+      }
+      cbor_decref(&it);
+    }
   }
   if (va.live != live0) vf_fail(NULL, "leak: %" PRIu64 " blocks", va.live - live0);
 }
@@ -172,7 +204,9 @@ static void bn_unit(uint64_t u) {
       for (unsigned d = 0; d < 256; d++) {
         b[3] = (uint8_t)d;
         /* all three paths when the string starts a multi-byte sequence somewhere; set_handle always */
+        bulk4 = true;
         judge_text(b, 4, (b[0] | b[1] | b[2]) >= 0x80, true);
+        bulk4 = false;
       }
   }
 }
@@ -300,7 +334,7 @@ struct vf_check vf_the_check = {
     .level = "model_checking",
     .rule = "(a) explicit-state search of the product of the library's UTF-8 DFA (stepped through the real _cbor_unicode_decode) and an RFC 3629 range validator: all 256 "
             "transitions from every reachable state pair, to fixpoint (states = reachable pairs, transitions = pair x byte steps executed on the implementation); "
-            "(b) every byte sequence of length <= n through cbor_string_set_handle, cbor_build_stringn and cbor_load, plus all sequences of <= 3 scalars over a 10-scalar boundary "
+            "(b) every byte sequence of length <= n through cbor_string_set_handle, cbor_build_stringn, cbor_load, cbor_copy of the decoded string and cbor_load as a chunk of an indefinite text string (the last two not inside the thorough tier's sweep of all 4-byte sequences), plus all sequences of <= 3 scalars over a 10-scalar boundary "
             "alphabet with one fault byte of 20 classes inserted / overwritten at every position and every single-byte deletion; (c) position sweep: every string "
             "ASCII^p . probe . ASCII^s for 30 probes (valid 2/3/4-byte scalars, stray / truncated / overlong / surrogate / out-of-range sequences) and every p, s with total length <= 26 (40 thorough), "
             "plus two probes separated by every ASCII gap (total <= 24), each through all three API paths and, for set_handle, at all 8 alignments of the handle. distinct_nontrivial = reachable "
@@ -313,5 +347,5 @@ struct vf_check vf_the_check = {
                     "indefinite strings do not aggregate their chunks' counts; the property speaks of definite strings only"},
     .counters = {[VC_EVAL] = "cases_judged", [VC_DISTINCT] = "distinct_nontrivial", [VC_TRANS] = "product_transitions", [VC_TRACES] = "executed_on_implementation",
                  [K_PAIRS] = "product_states_expanded", [K_PTRANS] = "product_transitions_checked", [K_SETHANDLE] = "set_handle_calls", [K_BUILD] = "build_stringn_calls",
-                 [K_LOAD] = "cbor_load_calls", [K_VALID] = "valid_utf8_inputs", [K_INVALID] = "invalid_utf8_inputs", [K_FAULTS] = "fault_injections", [K_LONG] = "long_strings", [K_SWEEP] = "position_sweep_strings"},
+                 [K_LOAD] = "cbor_load_calls", [K_COPY] = "copies_of_decoded_strings", [K_CHUNK] = "strings_decoded_as_chunks", [K_VALID] = "valid_utf8_inputs", [K_INVALID] = "invalid_utf8_inputs", [K_FAULTS] = "fault_injections", [K_LONG] = "long_strings", [K_SWEEP] = "position_sweep_strings"},
     .init = init, .units = units, .unit = unit, .replay = replay};
